@@ -48,7 +48,15 @@ impl Parse for Input {
 
         // BUG (In theory): missing and "auto" traits
         if input.peek(syn::token::Trait) {
-            let item_trait: syn::ItemTrait = input.parse()?;
+            let mut item_trait: syn::ItemTrait = input.parse()?;
+
+            // Attributes written inside the trait body (`#![..]`, `//!`)
+            // apply to the trait just like the ones written in front of it
+            let mut attrs = attrs;
+            for mut inner_attr in std::mem::take(&mut item_trait.attrs) {
+                inner_attr.style = syn::AttrStyle::Outer;
+                attrs.push(inner_attr);
+            }
 
             Ok(Input::Trait(syn::ItemTrait {
                 attrs,
